@@ -64,6 +64,17 @@ type pathState struct {
 	modelMemo   map[*Term]*Term
 	modelN      int
 	savedQ      int
+	// sched mode
+	sched        bool
+	sleep        []sleeper
+	schedSteps   int
+	schedChoices int
+	snapshot     []gInfo
+	snapBase     int
+	sync         *syncState
+	raceOn       bool
+	races        []string
+	shadows      map[interface{}]*shadow
 }
 
 // Violation is a candidate counterexample (to be replayed natively before it is reported).
